@@ -329,6 +329,13 @@ func (a *attemptCounter) snapshot() map[string]int {
 	return out
 }
 
+func errText(err error) string {
+	if err == nil {
+		return ""
+	}
+	return err.Error()
+}
+
 // baseID strips the "-<hex unix time>" suffix the queue appends per attempt.
 func baseID(id string) string {
 	if i := strings.LastIndexByte(id, '-'); i > 0 {
@@ -622,6 +629,21 @@ func runRecording(sc *scenario, tmp string) *epoch {
 		return ep
 	}
 	ctx := context.Background()
+	// the client of the queue hands its transactions to the queue itself or
+	// (group P) to a real pipeline in which the queue is one of two targets
+	var entry module.DeliveryTarget = q
+	pipeProblem := ""
+	if sc.Pipeline {
+		pl, cleanup, err := buildPipeWorld(sc, q, e)
+		if err != nil {
+			theRec.end()
+			closeQueue(q)
+			ep.Why = "cannot build the pipeline: " + err.Error()
+			return ep
+		}
+		defer cleanup()
+		entry = pl
+	}
 	for k, m := range sc.Msgs {
 		if sc.Gate && k == len(sc.Msgs)-1 {
 			select {
@@ -631,21 +653,30 @@ func runRecording(sc *scenario, tmp string) *epoch {
 			}
 		}
 		e.lg.Add(mx.Event{Kind: "h.start", MsgID: m.ID})
-		md := &module.MsgMetadata{ID: m.ID, OriginalFrom: m.From}
-		md.SMTPOpts.UTF8 = m.UTF8
-		d, err := q.Start(ctx, md, m.From)
+		d, err := entry.Start(ctx, m.metadata(), m.From)
 		if err != nil {
 			ep.Why = "queue refused Start: " + err.Error()
 			break
 		}
-		for _, r := range m.Rcpts {
+		offered := m.Rcpts
+		if sc.Pipeline {
+			offered = m.offered()
+		}
+		for _, r := range offered {
 			if err := d.AddRcpt(ctx, r, smtp.RcptOptions{}); err != nil {
+				if sc.Pipeline && r == m.RejectedRcpt && strings.Contains(err.Error(), pipeScripted) {
+					e.lg.Add(mx.Event{Kind: "h.rcpt.rejected", MsgID: m.ID, Rcpt: r, Err: err.Error()})
+					continue
+				}
 				ep.Why = "queue refused AddRcpt: " + err.Error()
 			}
 		}
-		if m.Fate == fateAbortBeforeBody {
-			d.Abort(ctx)
-			e.lg.Add(mx.Event{Kind: "h.abort", MsgID: m.ID})
+		if m.Fate == fateAbortBeforeBody || m.Fate == fateRcptRejectedByCheck {
+			// the result of Abort is of no interest to the client: the
+			// transaction is over when it returned (a pipeline reports the
+			// failure of one of its targets' Abort here)
+			aerr := d.Abort(ctx)
+			e.lg.Add(mx.Event{Kind: "h.abort", MsgID: m.ID, Err: errText(aerr)})
 			continue
 		}
 		e.lg.Add(mx.Event{Kind: "h.body.call", MsgID: m.ID})
@@ -653,6 +684,14 @@ func runRecording(sc *scenario, tmp string) *epoch {
 			bodyOnce.Do(func() { close(bodyStarted) })
 		}
 		if err := d.Body(ctx, m.hdr, m.body); err != nil {
+			if sc.Pipeline && m.abortedByScript(err) {
+				// DATA failed because the other target or a check refused the
+				// message; the endpoint aborts the transaction
+				e.lg.Add(mx.Event{Kind: "h.body.refused", MsgID: m.ID, Err: err.Error()})
+				aerr := d.Abort(ctx)
+				e.lg.Add(mx.Event{Kind: "h.abort", MsgID: m.ID, Err: errText(aerr)})
+				continue
+			}
 			// no I/O errors are injected, so this is not expected; the message
 			// is then neither acknowledged nor counted as aborted (not judged)
 			e.lg.Add(mx.Event{Kind: "h.body.err", MsgID: m.ID, Err: err.Error()})
@@ -661,9 +700,16 @@ func runRecording(sc *scenario, tmp string) *epoch {
 			continue
 		}
 		e.lg.Add(mx.Event{Kind: "h.body.ret", MsgID: m.ID})
-		if m.Fate == fateAbortAfterBody {
+		if m.Fate == fateBodyRefusedByOther || m.Fate == fateBodyRejectedByCheck {
+			// the scripted refusal did not happen: harness problem, the message
+			// is neither acknowledged nor counted as aborted
 			d.Abort(ctx)
-			e.lg.Add(mx.Event{Kind: "h.abort", MsgID: m.ID})
+			pipeProblem = "pipeline: the scripted refusal of the body of " + m.ID + " did not happen"
+			continue
+		}
+		if m.Fate == fateAbortAfterBody {
+			aerr := d.Abort(ctx)
+			e.lg.Add(mx.Event{Kind: "h.abort", MsgID: m.ID, Err: errText(aerr)})
 		} else {
 			if err := d.Commit(ctx); err != nil {
 				ep.Why = "queue refused Commit: " + err.Error()
@@ -704,6 +750,9 @@ func runRecording(sc *scenario, tmp string) *epoch {
 			break
 		}
 		time.Sleep(200 * time.Microsecond)
+	}
+	if pipeProblem != "" {
+		ep.Quiesced, ep.Why = false, pipeProblem
 	}
 	var errs []string
 	var lastPos int
